@@ -3,7 +3,7 @@ from __future__ import annotations
 
 import ast
 
-from .. import astu, flow, types
+from .. import astu, evid, flow, types
 from ..cfg import cfg_of
 from ..model import AnalysisError, Func
 from ..report import key_of
@@ -24,39 +24,48 @@ def r1(R, repo):
   mod = repo.mod(SC)
   f = mod.func('Scope.make_rng')
   c = cfg_of(f)
-  incs = [n for n in c.nodes if _aug_plus_one(n.stmt) and 'rng_counters' in astu.src(n.stmt.target)]
+  def _is_counter(t):
+    base = t.value if isinstance(t, ast.Subscript) else t
+    return 'rng_counters' in astu.src(t) or any('rng_counters' in x for x in evid.arg_text(f, base))
+  incs = [n for n in c.nodes if _aug_plus_one(n.stmt) and _is_counter(n.stmt.target)]
+  any_aug = [n for n in c.nodes if isinstance(n.stmt, ast.AugAssign) or (isinstance(n.stmt, ast.Assign) and isinstance(n.stmt.value, ast.BinOp) and isinstance(n.stmt.value.op, ast.Add))]
   rets = [n for n in c.nodes if isinstance(n.stmt, ast.Return)]
   R.require(len(rets) == 1, 'Scope.make_rng: single return expected')
-  if not incs:
+  if not incs and any_aug:
+    R.unsure(key_of(f, 'counter += 1 exactly once before the key is built'), f, 'the counter increment of make_rng was not recognised')
+  elif not incs:
     R.fail(key_of(f, 'counter += 1 exactly once before the key is built'), f, 'make_rng no longer increments the per-scope counter: every call would return the same key')
   else:
     ok, why = c.exactly_once_to_exit(incs)
     ok = ok and c.dominated(rets[0], incs)
-    R.check(ok, key_of(f, 'counter += 1 exactly once before the key is built'), f,
+    R.check(ok, key_of(f, 'counter += 1 exactly once before the key is built'), f, evidence=True, msg_fail=
             'on every returning path self.rng_counters[name] must be incremented exactly once, before the key is derived: %s' % why)
     name = astu.src(incs[0].stmt.target.slice)
     rv = rets[0].stmt.value
     mk = [x for x in ast.walk(rv) if isinstance(x, ast.Call) and astu.call_name(x) == 'LazyRng.create']
-    ok = len(mk) == 1 and [astu.src(a) for a in mk[0].args] == ['self.rngs[%s]' % name, 'self.rng_counters[%s]' % name] and astu.call_tail(rv) == 'as_jax_rng'
-    R.check(ok, key_of(f, 'key = LazyRng.create(rngs[name], rng_counters[name]).as_jax_rng()'), (f, rets[0].stmt),
-            'the returned key must be derived from this stream\'s rng and its (incremented) counter for the same `name`')
+    mk = mk or [x for e in evid.expand(f, rv) if isinstance(e, ast.AST) for x in ast.walk(e) if isinstance(x, ast.Call) and astu.call_name(x) == 'LazyRng.create']
+    evid.judge_call_args(R, repo, f, mk[0] if len(mk) == 1 else None, ['self.rngs[%s]' % name, 'self.rng_counters[%s]' % name], key_of(f, 'key = LazyRng.create(rngs[name], rng_counters[name]).as_jax_rng()'), (f, rets[0].stmt),
+                         'the returned key must be derived from this stream\'s rng and its (incremented) counter for the same `name`')
   m2 = repo.mod(RN)
   g = m2.func('RngStream.__call__')
   c = cfg_of(g)
   incs = [n for n in c.nodes if _aug_plus_one(n.stmt) and astu.src(n.stmt.target) == 'self.count.value']
   rets = [n for n in c.nodes if isinstance(n.stmt, ast.Return)]
-  if not incs:
+  any_aug = [n for n in c.nodes if isinstance(n.stmt, ast.AugAssign) or (isinstance(n.stmt, ast.Assign) and isinstance(n.stmt.value, ast.BinOp) and isinstance(n.stmt.value.op, ast.Add))]
+  if not incs and any_aug:
+    R.unsure(key_of(g, 'count += 1 exactly once per draw'), g, 'the counter increment of RngStream.__call__ was not recognised')
+  elif not incs:
     R.fail(key_of(g, 'count += 1 exactly once per draw'), g, 'RngStream.__call__ no longer advances its counter: the stream would repeat its key')
   else:
     ok, why = c.exactly_once_to_exit(incs)
-    R.check(ok, key_of(g, 'count += 1 exactly once per draw'), g, 'self.count.value must be incremented exactly once on every returning path: %s' % why)
+    R.check(ok, key_of(g, 'count += 1 exactly once per draw'), g, 'self.count.value must be incremented exactly once on every returning path: %s' % why, evidence=True)
   R.require(len(rets) == 1 and isinstance(rets[0].stmt.value, ast.Name), 'RngStream.__call__: `return key` expected')
   kd = types.single_def(g.node, rets[0].stmt.value.id)
   ok = isinstance(kd, ast.Call) and astu.call_name(kd) == 'jax.random.fold_in' and [astu.src(a) for a in kd.args] == ['self.key.value', 'self.count.value']
-  R.check(ok, key_of(g, 'key = fold_in(stream key, count)'), g, 'the drawn key must be jax.random.fold_in(self.key.value, self.count.value)')
+  evid.judge_call_args(R, repo, g, kd if isinstance(kd, ast.Call) and astu.call_tail(kd) == 'fold_in' else None, ['self.key.value', 'self.count.value'], key_of(g, 'key = fold_in(stream key, count)'), g, 'the drawn key must be jax.random.fold_in(self.key.value, self.count.value)')
   if incs and ok:
     kn = [n for n in c.nodes if isinstance(n.stmt, ast.Assign) and n.stmt.value is kd]
-    R.check(bool(kn) and c.dominated(incs[0], kn), key_of(g, 'key computed from the count before it advances'), g,
+    R.judge(bool(kn), bool(kn) and c.dominated(incs[0], kn), key_of(g, 'key computed from the count before it advances'), g,
             'the key must be computed before the counter is advanced (first draw uses count 0; split_rngs/restore rely on it)')
 
 
@@ -106,7 +115,7 @@ def r2(R, repo):
       R.ok(key, f)
   fs = repo.func(SC, '_fold_in_static')
   h = [x for x in astu.func_calls(fs) if (astu.call_name(x) or '').startswith('hashlib.')]
-  R.check(len(h) == 1, key_of(fs, 'digest from hashlib'), fs, '_fold_in_static must hash with hashlib (a process-independent digest)')
+  R.judge(bool(h) or not [x for x in astu.func_calls(fs) if astu.call_tail(x) in ('digest', 'hexdigest')], len(h) == 1, key_of(fs, 'digest from hashlib'), fs, '_fold_in_static must hash with hashlib (a process-independent digest)')
 
 
 @rule('C09.R3', 'K1', 4, '_fold_in_static feeds every path element into the digest, separated when the separator fix is enabled')
@@ -130,7 +139,7 @@ def r3(R, repo):
       ok = ok and c.must_pass(lp, e, seps, avoid_edges=cut)
     guarded = [n for n in body if n.kind == 'stmt' and c.edge_guarded(n, flag[0], 'T')]
     ok = ok and set(guarded) == set(seps)  # the flag changes nothing but the separator
-  R.check(ok, key_of(f, 'separator before each element when flax_fix_rng_separator'), f,
+  R.judge(len(flag) == 1 and bool(elems), ok, key_of(f, 'separator before each element when flax_fix_rng_separator'), f,
           'with the separator fix enabled a separator byte must be hashed before every element (so ("ab","c") and ("a","bc") differ)')
   # every element contributes: str and int branches update, anything else raises
   ts = [n for n in c.nodes if n.kind == 'if' and astu.isinstance_test(n.ast, x)]
@@ -138,14 +147,14 @@ def r3(R, repo):
   raises = [n for n in body if isinstance(n.stmt, ast.Raise)]
   firsts = [m for m, lab in c.succ[lp] if lab == 'T']
   ok = kinds == ['int', 'str'] and len(elems) == 2 and len(raises) == 1 and all(s in elems or lp not in c.reach([s], avoid=elems) for s in firsts)
-  R.check(ok, key_of(f, 'every element hashed (str / int), others rejected'), f, 'each element of the path must be fed to the digest (str and int) or rejected with an error; none may be skipped')
+  R.judge(len(ts) >= 1 and bool(elems), ok, key_of(f, 'every element hashed (str / int), others rejected'), f, 'each element of the path must be fed to the digest (str and int) or rejected with an error; none may be skipped')
   enc = [astu.src(n.stmt.value.args[0]) for n in elems]
   R.check(any('.encode(' in e for e in enc) and any('.to_bytes(' in e for e in enc), key_of(f, 'str.encode / int.to_bytes'), f, 'strings must be encoded and ints converted to bytes before hashing')
   early = [n for n in c.nodes if n.kind == 'if' and astu.src(n.ast) == 'not %s' % astu.params(f.node)[1]]
   rets = [n for n in c.nodes if isinstance(n.stmt, ast.Return)]
   final = [r for r in rets if isinstance(r.stmt.value, ast.Call) and astu.call_name(r.stmt.value) == 'random.fold_in']
   ok = len(early) == 1 and len(final) == 1 and astu.src(final[0].stmt.value.args[0]) == astu.params(f.node)[0] and flow.may_derive(f, final[0].stmt.value.args[1], lambda e: isinstance(e, ast.Call) and astu.call_tail(e) == 'digest')
-  R.check(ok, key_of(f, 'fold_in(rng, digest)'), f, '_fold_in_static must fold the digest of the path into the given rng (and return rng unchanged for an empty path)')
+  R.judge(len(final) == 1, ok, key_of(f, 'fold_in(rng, digest)'), f, '_fold_in_static must fold the digest of the path into the given rng (and return rng unchanged for an empty path)')
 
 
 @rule('C09.R4', 'K7', 6, 'child keys and counters are addressed by name; lifted and rewound scopes share the counter dict')
@@ -155,7 +164,10 @@ def r4(R, repo):
   rd = types.single_def(p.node, 'rngs')
   ok = isinstance(rd, ast.DictComp) and astu.src(rd.generators[0].iter) == 'self.rngs.items()' and isinstance(rd.value, ast.Call) and astu.call_name(rd.value) == 'LazyRng.create' and \
       [astu.src(a) for a in rd.value.args] == [astu.src(rd.generators[0].target.elts[1]), 'name'] and astu.src(rd.key) == astu.src(rd.generators[0].target.elts[0])
-  R.check(ok, key_of(p, 'child rng = LazyRng.create(parent rng, name)'), p, 'a child scope\'s streams must be the parent\'s streams folded with the child *name* (not a position or count)')
+  if isinstance(rd, ast.DictComp) and isinstance(rd.value, ast.Call) and astu.call_name(rd.value) == 'LazyRng.create' and isinstance(rd.generators[0].target, ast.Tuple):
+    evid.judge_call_args(R, repo, p, rd.value, [astu.src(rd.generators[0].target.elts[1]), 'name'], key_of(p, 'child rng = LazyRng.create(parent rng, name)'), p, 'a child scope\'s streams must be the parent\'s streams folded with the child *name* (not a position or count)', vocab=('prefix', 'name'))
+  else:
+    R.check(ok, key_of(p, 'child rng = LazyRng.create(parent rng, name)'), p, 'a child scope\'s streams must be the parent\'s streams folded with the child *name* (not a position or count)')
   rk = types.single_def(p.node, 'rng_key')
   c = cfg_of(p)
   ok = isinstance(rk, ast.Tuple) and astu.src(rk.elts[-1]) == 'name'
@@ -163,18 +175,17 @@ def r4(R, repo):
   t = [n for n in c.nodes if n.kind == 'if' and astu.src(n.ast) in ('rng_key in self.rng_counters', 'rng_key not in self.rng_counters')]
   ok = ok and len(st) == 1 and len(t) == 1 and c.edge_guarded(st[0], t[0], 'F' if ' not ' not in astu.src(t[0].ast) else 'T')
   fin = [n for n in c.nodes if isinstance(n.stmt, ast.Assign) and astu.src(n.stmt.targets[0]) == 'scope.rng_counters' and astu.src(n.stmt.value) == 'rng_counters']
-  R.check(ok and len(fin) == 1, key_of(p, 'child counters stored under (token, name) and reused'), p,
+  R.judge(isinstance(rk, ast.Tuple) and len(st) == 1 and len(t) == 1, ok and len(fin) == 1, key_of(p, 'child counters stored under (token, name) and reused'), p,
           'child counters must be kept in the parent under (child_rng_token, name), reused when the child is pushed again, and installed on the child scope')
   uses_len = [n for n in astu.body_walk(p.node) if isinstance(n, ast.Call) and astu.call_name(n) == 'len']
-  R.check(not uses_len, key_of(p, 'no dependence on creation order'), p, 'Scope.push must not derive rng state from len(...) / creation order')
+  R.check(not uses_len, key_of(p, 'no dependence on creation order'), p, 'Scope.push must not derive rng state from len(...) / creation order', evidence=True)
   cr = mod.func('LazyRng.create')
-  rets = [astu.src(n.value) for n in astu.body_walk(cr.node) if isinstance(n, ast.Return)]
-  R.check(sorted(rets) == ['LazyRng(rng, suffix)', 'LazyRng(rng.rng, rng.suffix + suffix)'], key_of(cr, 'suffix only appended'), cr, 'LazyRng.create must only append to the suffix (never drop or reorder path elements)')
+  evid.judge_stmts(R, cr, ['return LazyRng(rng, suffix)', 'return LazyRng(rng.rng, rng.suffix + suffix)'], key_of(cr, 'suffix only appended'), cr, 'LazyRng.create must only append to the suffix (never drop or reorder path elements)')
   rw = mod.func('Scope.rewound')
   c = cfg_of(rw)
   st = [n for n in c.nodes if isinstance(n.stmt, ast.Assign) and astu.src(n.stmt.targets[0]) == 'scope.rng_counters' and astu.src(n.stmt.value) == 'self.rng_counters']
   t = [n for n in c.nodes if n.kind == 'if' and 'rewind_rngs' in astu.src(n.ast)]
-  R.check(len(st) == 1 and len(t) == 1 and c.edge_guarded(st[0], t[0], 'T' if astu.src(t[0].ast).startswith('not') else 'F') and astu.is_const(astu.param_default(rw.node, 'rewind_rngs'), False),
+  R.judge(len(st) == 1 and len(t) == 1, len(st) == 1 and len(t) == 1 and c.edge_guarded(st[0], t[0], 'T' if astu.src(t[0].ast).startswith('not') else 'F') and astu.is_const(astu.param_default(rw.node, 'rewind_rngs'), False),
           key_of(rw, 'rewound scope shares the counters unless rewind_rngs'), rw, 'Scope.rewound must share self.rng_counters (the counts keep advancing across compact re-entry) unless rewind_rngs is requested')
   li = repo.mod(LI)
   pp = li.func('_partial_pack')
@@ -198,7 +209,8 @@ def r4(R, repo):
       ds = [x[0] for x in flow.defs(pp, a.id)]
       d = ds[0] if len(ds) == 1 else None
     ok = d is not None and astu.src(d) == 'scope.rng_counters'
-  R.check(ok, key_of(sf, 'inner scope shares the outer scope\'s rng counter dict'), sf,
+  copied = bool(upd) or (len(sets) == 1 and isinstance(sets[0].value, ast.Call) and astu.call_tail(sets[0].value) in ('dict', 'copy', 'deepcopy'))
+  R.judge(ok or copied, ok and not copied, key_of(sf, 'inner scope shares the outer scope\'s rng counter dict'), sf,
           'the scope created inside a lifted transform must use the *same* rng_counters dict as the outer scope (assigned by reference); a copy makes draws inside the transform invisible outside, so the next draw repeats a key')
 
 
@@ -212,7 +224,10 @@ def r5(R, repo):
   rb = [n for n in c.nodes if isinstance(n.stmt, ast.Assign) and astu.src(n.stmt) == "%s = 'params'" % name]
   rs = [n for n in c.nodes if isinstance(n.stmt, ast.Raise) and astu.raised_name(n.stmt) == 'InvalidRngError']
   ok = len(t1) == 1 and len(t2) == 1 and len(rb) == 1 and len(rs) == 1 and c.edge_guarded(rb[0], t1[0], 'T') and c.edge_guarded(rb[0], t2[0], 'T') and c.edge_guarded(rs[0], t2[0], 'F') and c.edge_guarded(rs[0], t1[0], 'T')
-  R.check(ok, key_of(f, "missing stream -> 'params' else InvalidRngError"), f, "make_rng must fall back to the 'params' stream only when the requested stream is missing, and raise InvalidRngError when neither exists")
+  if not rs and not evid.raises_deep(repo, f, 'InvalidRngError'):
+    R.fail(key_of(f, "missing stream -> 'params' else InvalidRngError"), f, "make_rng no longer raises InvalidRngError when neither the requested stream nor 'params' exists")
+  else:
+    R.judge(len(t1) == 1 and len(t2) == 1 and len(rb) == 1 and len(rs) == 1, ok, key_of(f, "missing stream -> 'params' else InvalidRngError"), f, "make_rng   must fall back to the 'params' stream only when the requested stream is missing, and raise InvalidRngError when neither exists")
   g = repo.func(RN, 'Rngs._get_stream')
   c = cfg_of(g)
   name = astu.params(g.node)[1]
@@ -222,7 +237,7 @@ def r5(R, repo):
   ex = [n for n in c.nodes if isinstance(n.stmt, ast.Assign) and astu.src(n.stmt.value) == 'rngs_vars[%s]' % name]
   rs = [n for n in c.nodes if isinstance(n.stmt, ast.Raise)]
   ok = len(t1) == 1 and len(t2) == 1 and len(fb) == 1 and len(ex) == 1 and len(rs) == 1 and c.edge_guarded(fb[0], t1[0], 'T') and c.edge_guarded(ex[0], t1[0], 'F') and c.edge_guarded(rs[0], t2[0], 'T')
-  R.check(ok, key_of(g, "missing stream -> 'default' else raise"), g, "Rngs must return the named stream when it exists, fall back to 'default' otherwise, and raise when neither exists")
+  R.judge(len(t1) == 1 and len(t2) == 1 and len(fb) == 1 and len(ex) == 1 and len(rs) == 1, ok, key_of(g, "missing stream -> 'default' else raise"), g, "Rngs must return the named stream when it exists, fall back to 'default' otherwise, and raise when neither exists")
 
 
 @rule('C09.R6', 'K1+K4', 6, 'split / restore / reseed never replay a key')
@@ -241,33 +256,32 @@ def r6(R, repo):
   if not draws:
     R.fail(key_of(f, 'draw before backup'), f, 'split_rngs no longer draws a key from the stream before splitting it: the split keys would coincide with the stream\'s own next keys')
   else:
-    R.check(c.must_pass(lp, apps[0], draws), key_of(f, 'draw before backup'), (f, apps[0].stmt),
+    R.check(c.must_pass(lp, apps[0], draws), key_of(f, 'draw before backup'), (f, apps[0].stmt), evidence=True, msg_fail=
             'the backup must be taken after `key = stream()`: it then holds the advanced count, so restoring resumes the stream after the key that was split (otherwise that key is replayed)',
             witness=c.witness(lp, apps[0], avoid=draws))
     drawn = astu.src(draws[0].stmt.targets[0])
     sp = [n for n in body if isinstance(n.stmt, ast.Assign) and isinstance(n.stmt.value, ast.Call) and astu.call_name(n.stmt.value) == 'jax.random.split']
     ok = len(sp) == 1 and astu.src(sp[0].stmt.value.args[0]) == drawn and c.must_pass(lp, sp[0], draws)
-    R.check(ok, key_of(f, 'split the drawn key'), f, 'the split keys must come from the key just drawn from the stream')
+    R.judge(len(sp) == 1, ok, key_of(f, 'split the drawn key'), f, 'the split keys must come from the key just drawn from the stream')
   tup = apps[0].stmt.value.args[0]
   layout = [astu.src(e) for e in tup.elts] if isinstance(tup, ast.Tuple) else None
-  R.check(layout == [stream, '%s.key.value' % stream, '%s.count.value' % stream], key_of(f, 'backup = (stream, key, count)'), (f, apps[0].stmt), 'the backup tuple must be (stream, stream.key.value, stream.count.value)')
+  R.judge(layout is not None and len(layout) == 3, layout == [stream, '%s.key.value' % stream, '%s.count.value' % stream], key_of(f, 'backup = (stream, key, count)'), (f, apps[0].stmt), 'the backup tuple must be (stream, stream.key.value, stream.count.value)')
   rs = mod.func('restore_rngs')
   txt = astu.src(rs.node)
-  ok = 'stream = backup[0]' in txt and 'stream.key.value = backup[1]' in txt and 'stream.count.value = backup[2]' in txt and 'if len(backup) == 3' in txt
-  R.check(ok, key_of(rs, 'reads (stream, key, count) in the writer\'s layout'), rs, 'restore_rngs must restore key from [1] and count from [2] (when present) onto the stream in [0]')
+  evid.judge_stmts(R, rs, ['stream = backup[0]', 'stream.key.value = backup[1]', 'stream.count.value = backup[2]'], key_of(rs, 'reads (stream, key, count) in the writer\'s layout'), rs, 'restore_rngs must restore key from [1] and count from [2] (when present) onto the stream in [0]')
   bk = mod.func('backup_keys')
   apps2 = [x for x in astu.func_calls(bk) if astu.src(x.func) == 'backups.append']
-  R.check(len(apps2) == 1 and astu.src(apps2[0].args[0]) == '(stream, stream.key.value)', key_of(bk, 'backup = (stream, key)'), bk, 'backup_keys must record (stream, stream.key.value)')
+  evid.judge_call_args(R, repo, bk, apps2[0] if len(apps2) == 1 else None, ['(stream, stream.key.value)'], key_of(bk, 'backup = (stream, key)'), bk, 'backup_keys must record (stream, stream.key.value)')
   rsd = mod.func('reseed')
   c = cfg_of(rsd)
   ks = [n for n in c.nodes if isinstance(n.stmt, ast.Assign) and astu.src(n.stmt.targets[0]) == 'stream.key.value']
   cs = [n for n in c.nodes if isinstance(n.stmt, ast.Assign) and astu.src(n.stmt.targets[0]) == 'stream.count.value']
   ok = len(ks) == 1 and len(cs) == 1 and c.must_pass(ks[0], c.exit, cs) and isinstance(cs[0].stmt.value, ast.Call) and astu.is_const(cs[0].stmt.value.args[0], 0)
-  R.check(ok, key_of(rsd, 'new key and count 0 together'), rsd, 'reseed must reset the count to 0 whenever it installs a new key')
+  R.judge(len(ks) == 1 and len(cs) == 1, ok, key_of(rsd, 'new key and count 0 together'), rsd, 'reseed must reset the count to 0 whenever it installs a new key')
   fr = repo.func(TR, 'fork_rngs')
   tr = [n for n in astu.body_walk(fr.node) if isinstance(n, ast.Try)]
   ok = len(tr) == 1 and any(astu.src(s) == 'module.scope.rngs = current_rngs' for s in tr[0].finalbody) and 'current_rngs = module.scope.rngs.copy()' in astu.src(fr.node)
-  R.check(ok, key_of(fr, 'rngs restored in finally'), fr, 'fork_rngs must restore the module scope\'s rngs in a finally block')
+  R.judge(len(tr) == 1 and 'current_rngs' in astu.src(fr.node), ok, key_of(fr, 'rngs restored in finally'), fr, 'fork_rngs must restore the module scope\'s rngs in a finally block')
 
 
 @rule('C09.R7', 'K1', 2, 'lifted jit / fold_rngs: counters captured before and restored after the traced call')
@@ -281,7 +295,7 @@ def r7(R, repo):
     rst = [n for n in c.nodes if isinstance(n.stmt, ast.Expr) and isinstance(n.stmt.value, ast.Call) and astu.call_name(n.stmt.value) == '_restore_rng_counters']
     ok = len(cap) == 1 and len(call) == 1 and len(rst) == 1 and c.dominated(call[0], cap) and c.must_pass(call[0], c.exit, rst, avoid_edges=c.exc_edges()) and \
         [astu.src(a) for a in rst[0].stmt.value.args] == ['scopes', 'fingerprint', 'capture_old_counts'] and astu.src(call[0].stmt.value.args[0]) == 'fingerprint'
-    R.check(ok, key_of(f, 'capture counts -> traced call -> _restore_rng_counters(scopes, fingerprint, old)'), f,
+    R.judge(len(cap) == 1 and len(call) == 1 and len(rst) == 1, ok, key_of(f, 'capture counts -> traced call -> _restore_rng_counters(scopes, fingerprint, old)'), f,
             '%s must capture the rng counters before the traced call and restore/advance them afterwards with the same fingerprint' % q)
 
 
